@@ -178,7 +178,7 @@ def _inq_on_section(node):
     from psyclone.psyir import nodes as N
     nm = node.intrinsic.name
     arr = node.arguments[0]
-    if len(node.arguments) != 2 or any(node.argument_names):
+    if len(node.arguments) != 2 or node.argument_names[0] or (node.argument_names[1] or "dim").lower() != "dim":
         raise mf.OutOfSubset("inquiry without dim")
     d = expr_x(node.arguments[1])
     if d[0] != "lit":
@@ -224,7 +224,10 @@ def expr_x(node):
             return ("bin", mf.BINOPS[o], expr_x(node.children[0]), expr_x(node.children[1]))
     if isinstance(node, N.IntrinsicCall):
         nm = node.intrinsic.name
-        if nm in mf.INTRS and not any(node.argument_names):
+        named = [a for a in node.argument_names if a]
+        dim_only = (nm in ("LBOUND", "UBOUND", "SIZE") and len(node.arguments) == 2 and
+                    [a.lower() for a in named] == ["dim"] and node.argument_names[0] is None)
+        if nm in mf.INTRS and (not named or dim_only):
             args = [expr_x(c) if not (i == 0 and nm in ("LBOUND", "UBOUND", "SIZE")) else
                     _inq_head(c) for i, c in enumerate(node.arguments)]
             return ("intr", mf.INTRS[nm], args)
